@@ -87,6 +87,7 @@ package intermediate
 
 //@ func (a *AggregationProcess) ForAllExpiredFlowRecordsDo(callback) (err)
 //@   requires inv:  aggInv(a) && aggRetry(a) && !a.mutex.held && !a.mutex.rheld && callback != nil
+//@   requires timeouts: a.activeExpiryTimeout > 0 && a.inactiveExpiryTimeout > 0
 //@   ensures  inv:  aggInv(a) && aggRetry(a)
 //@   ensures  once: a.mutex.acq == old(a.mutex.acq) + 1
 //@   ensures  lock: !a.mutex.held
@@ -102,6 +103,9 @@ package intermediate
 //@   modifies *
 //@   replay expiry
 //@   loop 1 invariant inv:  aggInv(a) && aggRetry(a) && a.mutex.held && currTime == $lastNow
+//@   // progress: an item that was popped in an iteration that continues is no longer due if it is still queued (it was deleted, or re-queued
+//@   // with re-armed deadlines): the scan cannot hand the same flow to the callback over and over. (Termination itself is not proved.)
+//@   loop 1 step progress: forall i in [0, len(a.expirePriorityQueue)): a.expirePriorityQueue[i] == pqItem ==> minExp(a.expirePriorityQueue[i]) > currTime
 //@   loop 1 invariant nonew: forall k: has(a.flowKeyRecordMap, k) ==> old(has(a.flowKeyRecordMap, k)) && a.flowKeyRecordMap[k] == old(a.flowKeyRecordMap[k])
 //@   loop 1 invariant same: forall k: has(a.flowKeyRecordMap, k) ==> itemOf(a, k) == old(itemOf(a, k)) && a.flowKeyRecordMap[k].ReadyToSend == old(a.flowKeyRecordMap[k].ReadyToSend)
 //@   loop 1 invariant inact: forall k: has(a.flowKeyRecordMap, k) && a.flowKeyRecordMap[k].ReadyToSend ==> itemOf(a, k).inactiveExpireTime == old(itemOf(a, k).inactiveExpireTime)
